@@ -569,6 +569,11 @@ def _wiring(chk):
             log = []
 
             class Dyn:
+                # what the real dynamics service exposes before a correction
+                period = None
+                _initial_state = None
+                initial_state = property(lambda self_: self_._initial_state)
+
                 def reset(self_):
                     log.append("reset")
 
